@@ -174,8 +174,9 @@ def run(ctx, rep):
                          "a call in tail position must behave as the same call in operand position")
     C04.r04a(ctx, rep, as_rule="R01d", want=("nontail",))
     r01e(ctx, rep)
+    from . import popbalance
+    popbalance.r01b(ctx, rep)
     prelude.r01f(ctx, rep)
     prelude.r01g(ctx, rep)
     rep.not_decided += ["values computed by any program (the property as stated)", "a handler that is present but wrong",
-                        "builtin frame consumption (pop balance, R01b of the design: not built)",
                         "left-to-right operand order beyond the order of emitted pushes"]
